@@ -27,7 +27,21 @@ import (
 	"github.com/bmeg/grip/server"
 )
 
+// c05ServeExec: up to three attempts (the two ports are picked at random and may be taken); a server
+// that cannot be started at all is an environment problem, not an observation: the line is skipped.
 func c05ServeExec(op map[string]interface{}) map[string]interface{} {
+	var obs map[string]interface{}
+	for attempt := 0; attempt < 3; attempt++ {
+		obs = c05ServeOnce(op)
+		if _, failed := obs["err"]; !failed {
+			return obs
+		}
+		time.Sleep(500 * time.Millisecond)
+	}
+	return map[string]interface{}{"skip": true, "why": fmt.Sprint("server.Serve could not be started: ", obs["err"])}
+}
+
+func c05ServeOnce(op map[string]interface{}) map[string]interface{} {
 	dir := c05Scratch()
 	defer os.RemoveAll(dir)
 	conf := config.DefaultConfig()
@@ -98,6 +112,7 @@ func c05ServeExec(op map[string]interface{}) map[string]interface{} {
 		return "open"
 	}
 	out := []interface{}{}
+	noAnswer := false
 	probes, _ := op["probes"].([]interface{})
 	for _, p := range probes {
 		pm, _ := p.(map[string]interface{})
@@ -105,8 +120,14 @@ func c05ServeExec(op map[string]interface{}) map[string]interface{} {
 		kind, _ := pm["kind"].(string)
 		verb, _ := pm["verb"].(string)
 		path, _ := pm["path"].(string)
-		out = append(out, []interface{}{svc, kind, verb, path,
-			ask(verb, path, "", ""), ask(verb, path, "alice", "wrong"), ask(verb, path, "alice", "pw-alice")})
+		a1, a2, a3 := ask(verb, path, "", ""), ask(verb, path, "alice", "wrong"), ask(verb, path, "alice", "pw-alice")
+		if a1 == "no-answer" && a2 == "no-answer" && a3 == "no-answer" {
+			noAnswer = true // the server went away (not a property observation)
+		}
+		out = append(out, []interface{}{svc, kind, verb, path, a1, a2, a3})
+	}
+	if noAnswer {
+		return map[string]interface{}{"err": "no answer from the HTTP port"}
 	}
 	return map[string]interface{}{"probes": out}
 }
